@@ -337,7 +337,9 @@ class Prover:
                         if self.infeasible(facts + extra): continue
                         if not self.prove_le0(e.subst(a, val), facts + extra, depth + 1, seen): ok = False; break
                     if ok: return True
-                cands = list(facts) + self.intrinsic_upper(a) + self.prod_upper(a, facts)
+                iu = self.intrinsic_upper(a)
+                if self.rewrite is not None: iu = [self.rewrite(f) for f in iu]        # callee-local facts in the caller's terms (context proofs)
+                cands = list(facts) + iu + self.prod_upper(a, facts)
             else:
                 cands = list(facts)
             for f in cands:
